@@ -71,7 +71,7 @@ def one_run(mode, seed, faults):
         op.update(kw)
     o = sess.call('connect', read_timeout_s=2.0, transport_timeout_s=1.0)
     first_fault = min(faults) if faults else None
-    tr.append(dict(ev='op', api='connect', outcome='exc' if o.kind == 'exc' else ('same' if o.value is True else 'wrong'), locksFree=locks_free(sess), faulted=bool(fault.fired)))
+    tr.append(dict(ev='op', api='connect', outcome=('hang' if o.exc_name in ('Watchdog', 'LockLeak') else 'exc') if o.kind == 'exc' else ('same' if o.value is True else 'wrong'), locksFree=locks_free(sess), faulted=bool(fault.fired)))
     outs = []
     if o.kind == 'ret':
         outs = run_ops(sess, spec, args, rr, stop_on_exc=True)
@@ -83,7 +83,7 @@ def fault_trace(mode, seed, faults, baseline):
     spec, dev, sess, rr, args, tr, outs, fault, ncalls = one_run(mode, seed, faults)
     for i, (key, lf, o) in enumerate(outs):
         if o.kind == 'exc':
-            oc = 'hang' if o.exc_name == 'Watchdog' else 'exc'
+            oc = 'hang' if o.exc_name in ('Watchdog', 'LockLeak') else 'exc'
         else:
             oc = 'same' if key == baseline[i] else 'wrong'
         tr.append(dict(ev='op', api=spec['ops'][i]['api'], outcome=oc, locksFree=lf, faulted=bool(fault.fired)))
@@ -97,6 +97,8 @@ def fault_trace(mode, seed, faults, baseline):
     tr.append(dict(ev='close', ok=bool(ok), locksFree=locks_free(sess), avail=bool(sess.device.available)))
     nf0 = len(fault.fired)
     o = sess.call('connect', read_timeout_s=2.0, transport_timeout_s=1.0)
+    if o.kind == 'exc' and o.exc_name in ('Watchdog', 'LockLeak'):
+        tr.append(dict(ev='op', api='connect', outcome='hang', locksFree=locks_free(sess), faulted=True))
     tr.append(dict(ev='reconnect', ok=(o.kind == 'ret' and o.value is True), avail=bool(sess.device.available), locksFree=locks_free(sess), faulted=len(fault.fired) > nf0))
     if o.kind == 'ret':
         rr2 = scen.RunResult()
@@ -104,7 +106,7 @@ def fault_trace(mode, seed, faults, baseline):
         nf0 = len(fault.fired)
         outs2 = run_ops(sess, spec, args, rr2, stop_on_exc=False)
         for i, (key, lf, o2) in enumerate(outs2):
-            oc = 'same' if key == baseline[i] else ('hang' if o2.exc_name == 'Watchdog' else ('exc' if o2.kind == 'exc' else 'wrong'))
+            oc = 'same' if key == baseline[i] else ('hang' if o2.exc_name in ('Watchdog', 'LockLeak') else ('exc' if o2.kind == 'exc' else 'wrong'))
             tr.append(dict(ev='op', api=spec['ops'][i]['api'], outcome=oc, locksFree=lf, faulted=len(fault.fired) > nf0))
     sess.close_loop()
     return tr, fault
